@@ -145,6 +145,10 @@ func VerifH_C06_CompileRegister() {
 	}
 	var d1 interface{} = c09Doc()
 	want := c06Outcome(e0, d1)
+	if verifBool() {
+		// the package-level registry is already populated when the threads start
+		_ = RegisterVars(map[string]interface{}{"zzc06pre": 0.0})
+	}
 	which := verifChoose(3)
 	var got, got0 string
 	var rerr error
